@@ -189,12 +189,21 @@ func (gtidSet MariadbGTIDSet) AddGTID(other GTID) GTIDSet {
 	for i, gtid := range gtidSet {
 		if mdbOther.Domain == gtid.Domain {
 			if mdbOther.Sequence > gtid.Sequence {
-				gtidSet[i] = mdbOther
+				// Copy before replacing: the receiver shares its backing array
+				// with every other slice derived from it.
+				newSet := make(MariadbGTIDSet, len(gtidSet))
+				copy(newSet, gtidSet)
+				newSet[i] = mdbOther
+				return newSet
 			}
 			return gtidSet
 		}
 	}
-	return append(gtidSet, mdbOther)
+	// Copy before appending: spare capacity of the receiver may be shared with
+	// sets returned by earlier calls.
+	newSet := make(MariadbGTIDSet, len(gtidSet), len(gtidSet)+1)
+	copy(newSet, gtidSet)
+	return append(newSet, mdbOther)
 }
 
 func init() {
